@@ -19,6 +19,8 @@ package main
 //	                          for i, x := range slices.All(xs) / for x := range slices.Values(xs)  →  for i, x := range xs / for _, x := range xs
 //	                          (xs a variable or field path the body does not assign; go/ssa turns a range over a function
 //	                          into a closure per loop body, which no rule follows)
+//	H  range over an integer: for i := range n {…}  →  for i := 0; i < n; i++ {…}   (n a constant, a variable or field path, or
+//	                          len of one, that the body does not assign; i not assigned in the body — the rules know counted loops)
 //	F  receiver restored:     func m(x *T, a A) of a routine the pinned tree knows as method (*T).m(a A), with its calls
 //	                          m(v, a)  →  func (x *T) m(a A), (v).m(a)   (the rules find such routines among T's methods)
 //
@@ -26,6 +28,7 @@ package main
 // is type-checked with the rest of the overlay; an ill-typed result discards the pass.
 
 import (
+	"fmt"
 	"go/ast"
 	"go/token"
 	"go/types"
@@ -394,6 +397,90 @@ func canonicalSpelling(p *packages.Package, overlay map[string][]byte) map[strin
 					flush()
 				}
 			case *ast.RangeStmt:
+				if tx := info.TypeOf(x.X); tx != nil && x.Value == nil && (x.Tok == token.DEFINE || x.Key == nil) {
+					if bt, isBasic := tx.Underlying().(*types.Basic); isBasic && bt.Info()&types.IsInteger != 0 {
+						// the bound is invariant
+						inner := ast.Expr(x.X)
+						if c, isCall := inner.(*ast.CallExpr); isCall && len(c.Args) == 1 {
+							if id, ok := c.Fun.(*ast.Ident); ok && id.Name == "len" {
+								inner = c.Args[0]
+							}
+						}
+						invariant := isConstLike(x.X) || (plainLvalue(inner) && !assignsTo(info, x.Body, inner))
+						key := "iRange"
+						keyAssigned := false
+						if kid, ok := x.Key.(*ast.Ident); ok && kid.Name != "_" {
+							key = kid.Name
+							kobj := info.Defs[kid]
+							ast.Inspect(x.Body, func(m ast.Node) bool {
+								switch y := m.(type) {
+								case *ast.AssignStmt:
+									for _, l := range y.Lhs {
+										if id, ok := l.(*ast.Ident); ok && info.Uses[id] == kobj {
+											keyAssigned = true
+										}
+									}
+								case *ast.IncDecStmt:
+									if id, ok := y.X.(*ast.Ident); ok && info.Uses[id] == kobj {
+										keyAssigned = true
+									}
+								case *ast.UnaryExpr:
+									if id, ok := y.X.(*ast.Ident); ok && y.Op == token.AND && info.Uses[id] == kobj {
+										keyAssigned = true
+									}
+								}
+								return true
+							})
+						} else if x.Key != nil {
+							if _, isId := x.Key.(*ast.Ident); !isId {
+								invariant = false
+							}
+						}
+						if invariant && !keyAssigned {
+							zero := "0"
+							kt := tx
+							if bt.Info()&types.IsUntyped != 0 {
+								kt = types.Typ[types.Int]
+							}
+							if !types.Identical(kt, types.Typ[types.Int]) {
+								zero = tstr(kt, qual) + "(0)"
+							}
+							hdr := "for " + key + " := " + zero + "; " + key + " < " + text(x.X) + "; " + key + "++ {"
+							if key == "iRange" {
+								hdr += "\n_ = iRange"
+							}
+							add(off(x.Pos()), off(x.Body.Lbrace)+1, hdr)
+							flush()
+						}
+					}
+				}
+				// the adapter over an expression that is not a plain variable (`slices.Backward(q.list())`): the expression is
+				// evaluated once into a fresh variable in front of the loop (not when the loop carries a label)
+				if call, ok := x.X.(*ast.CallExpr); ok && len(call.Args) == 1 && x.Tok == token.DEFINE && !plainLvalue(call.Args[0]) {
+					if sel, ok := call.Fun.(*ast.SelectorExpr); ok && (sel.Sel.Name == "Backward" || sel.Sel.Name == "All" || sel.Sel.Name == "Values") {
+						if pk, ok := sel.X.(*ast.Ident); ok {
+							if pn, ok := info.Uses[pk].(*types.PkgName); ok && pn.Imported().Path() == "slices" {
+								if _, isSlice := info.TypeOf(call.Args[0]).Underlying().(*types.Slice); isSlice {
+									labelled := false
+									for j := off(x.Pos()) - 1; j >= 0; j-- {
+										ch := src[j]
+										if ch == ' ' || ch == '\t' || ch == '\n' || ch == '\r' {
+											continue
+										}
+										labelled = ch == ':'
+										break
+									}
+									if !labelled {
+										tmp := fmt.Sprintf("iterSrc%d", off(x.Pos()))
+										add(off(x.Pos()), off(x.Pos()), tmp+" := "+text(call.Args[0])+"\n")
+										add(off(call.Args[0].Pos()), off(call.Args[0].End()), tmp)
+										flush()
+									}
+								}
+							}
+						}
+					}
+				}
 				if call, ok := x.X.(*ast.CallExpr); ok && len(call.Args) == 1 && x.Tok == token.DEFINE && plainLvalue(call.Args[0]) {
 					if sel, ok := call.Fun.(*ast.SelectorExpr); ok {
 						if pk, ok := sel.X.(*ast.Ident); ok {
